@@ -48,52 +48,65 @@ structure ConeMapEntry where
 def coneStarts (cones : Array Cone) : Array Nat :=
   (cones.toList.foldl (fun (acc : Array Nat × Nat) c => (acc.1.push acc.2, acc.2 + c.nvars)) (#[], 0)).1
 
+/-- the body of the double loop of `add_blocks_with_sparsity_pattern` (`j` outer, `i` inner):
+for `i ≤ j` the entry `(i, j)` of the block, stored at `old[row_ptr + counter]`, is ADDED to `s`
+and WRITTEN to `z` at the original row of `(i, j)` -/
+def addBlockEntry [Add α] (oldS oldZ : Array α) (rowStart rowPtr j : Nat)
+    (acc : Array α × Array α × Nat) (i : Nat) : MErr (Array α × Array α × Nat) :=
+  if i ≤ j then do
+    let offset := coordToUpperTriangularIndex (i, j)
+    let sv ← getE acc.1 (rowStart + offset) "add_blocks"
+    let os ← getE oldS (rowPtr + acc.2.2) "add_blocks"
+    let oz ← getE oldZ (rowPtr + acc.2.2) "add_blocks"
+    let s ← setE acc.1 (rowStart + offset) (sv + os) "add_blocks"
+    let z ← setE acc.2.1 (rowStart + offset) oz "add_blocks"
+    pure (s, z, acc.2.2 + 1)
+  else pure acc
+
+/-- the double loop over the sorted clique `buf` -/
+def addBlockLoop [Add α] (oldS oldZ : Array α) (rowStart rowPtr : Nat) (buf : List Nat)
+    (newS newZ : Array α) : MErr (Array α × Array α × Nat) :=
+  buf.foldlM (fun acc j => buf.foldlM (addBlockEntry oldS oldZ rowStart rowPtr j) acc) (newS, newZ, 0)
+
 /-- `add_blocks_with_sparsity_pattern` -/
 def addBlocksWithSparsityPattern [Add α] (newS newZ oldS oldZ : Array α) (rowStart : Nat)
     (p : SPattern) (cliqueIndex rowPtr : Nat) : MErr (Array α × Array α × Nat) := do
   let clique ← p.sntree.getClique cliqueIndex
   let buf ← clique.toList.mapM (fun v => getE p.ordering v "ordering")
   let buf := (VSet.sort buf.toArray).toList
-  let (s, z, _) ← buf.foldlM (fun (acc : Array α × Array α × Nat) j =>
-    buf.foldlM (fun (acc : Array α × Array α × Nat) i => do
-      let (s, z, counter) := acc
-      if i ≤ j then
-        let offset := coordToUpperTriangularIndex (i, j)
-        let sv ← getE s (rowStart + offset) "add_blocks"
-        let os ← getE oldS (rowPtr + counter) "add_blocks"
-        let oz ← getE oldZ (rowPtr + counter) "add_blocks"
-        let s ← setE s (rowStart + offset) (sv + os) "add_blocks"
-        let z ← setE z (rowStart + offset) oz "add_blocks"
-        pure (s, z, counter + 1)
-      else pure (s, z, counter)) acc) (newS, newZ, 0)
-  pure (s, z, rowPtr + triangularNumber clique.size)
+  let r ← addBlockLoop oldS oldZ rowStart rowPtr buf newS newZ
+  pure (r.1, r.2.1, rowPtr + triangularNumber clique.size)
+
+/-- `v[start .. start + n].copy_from(&old[rowPtr .. rowPtr + n])` -/
+def copyRange [OfNat α 0] (v old : Array α) (start rowPtr n : Nat) : Array α :=
+  (List.range n).foldl (fun (v : Array α) i => v.setIfInBounds (start + i) (old.getD (rowPtr + i) 0)) v
+
+/-- the body of the loop of `decomp_reverse_compact` over `zip(old_cones, cone_maps)`;
+state `(new_s, new_z, row_ptr)` -/
+def reverseConeStep [Add α] [OfNat α 0] (ci : ChordalInfo) (oldS oldZ : Array α) (starts : Array Nat)
+    (acc : Array α × Array α × Nat) (e : Cone × ConeMapEntry) : MErr (Array α × Array α × Nat) := do
+  let start ← getE starts e.2.origIndex "row_ranges"
+  let oc ← getE ci.initCones e.2.origIndex "row_ranges"
+  match e.2.treeAndClique with
+  | none =>
+    -- add_blocks_with_cone / copy_from: lengths must agree
+    if oc.nvars != e.1.nvars then throw (.panic "copy_from: length") else
+    if acc.2.2 + e.1.nvars > oldS.size ∨ acc.2.2 + e.1.nvars > oldZ.size ∨ start + e.1.nvars > acc.1.size then
+      throw (.panic "add_blocks_with_cone: slice") else
+    pure (copyRange acc.1 oldS start acc.2.2 e.1.nvars, copyRange acc.2.1 oldZ start acc.2.2 e.1.nvars,
+          acc.2.2 + e.1.nvars)
+  | some tc =>
+    if !e.1.isPsd then throw (.panic "decomp_reverse_compact: assert PSD") else do
+    let p ← getE ci.spatterns tc.1 "spatterns"
+    addBlocksWithSparsityPattern acc.1 acc.2.1 oldS oldZ start p tc.2 acc.2.2
 
 /-- `decomp_reverse_compact` : `(s, z)` of length `m` from the decomposed `old_s, old_z` -/
 def decompReverseCompact [Add α] [OfNat α 0] (ci : ChordalInfo) (coneMaps : Array ConeMapEntry)
     (oldCones : Array Cone) (oldS oldZ : Array α) : MErr (Array α × Array α) := do
   let m := ci.initDims.2
   let starts := coneStarts ci.initCones
-  let k := min oldCones.size coneMaps.size
-  let (s, z, _) ← (List.range k).foldlM (fun (acc : Array α × Array α × Nat) idx => do
-    let (s, z, rowPtr) := acc
-    let cone := oldCones.getD idx (.zero 0)
-    let cm := coneMaps.getD idx default
-    let start ← getE starts cm.origIndex "row_ranges"
-    let oc ← getE ci.initCones cm.origIndex "row_ranges"
-    match cm.treeAndClique with
-    | none =>
-      -- copy_from: lengths must agree
-      if oc.nvars != cone.nvars then throw (.panic "copy_from: length") else
-      if rowPtr + cone.nvars > oldS.size ∨ rowPtr + cone.nvars > oldZ.size ∨ start + cone.nvars > s.size then
-        throw (.panic "add_blocks_with_cone: slice") else
-      let s := (List.range cone.nvars).foldl (fun (s : Array α) i => s.setIfInBounds (start + i) (oldS.getD (rowPtr + i) 0)) s
-      let z := (List.range cone.nvars).foldl (fun (z : Array α) i => z.setIfInBounds (start + i) (oldZ.getD (rowPtr + i) 0)) z
-      pure (s, z, rowPtr + cone.nvars)
-    | some (ti, cidx) =>
-      if !cone.isPsd then throw (.panic "decomp_reverse_compact: assert PSD") else
-      let p ← getE ci.spatterns ti "spatterns"
-      addBlocksWithSparsityPattern s z oldS oldZ start p cidx rowPtr)
+  let r ← (oldCones.toList.zip coneMaps.toList).foldlM (reverseConeStep ci oldS oldZ starts)
     (Array.replicate m 0, Array.replicate m 0, 0)
-  pure (s, z)
+  pure (r.1, r.2.1)
 
 end Clarabel.Chordal
